@@ -63,6 +63,7 @@ struct C02Delivery : Monitor {
 		if (&t == w->clients[0].task) { pend_c = p; have_pend = true; pend_t = w->S.now; return; }
 		if (&t != w->srv) return;
 		if (p.size() < 24) { dropped_s++; return; }
+		if ((p[4] >> 4) != 4) { dropped_s++; w->probes["c02.srv.not_ipv4_not_routed"]++; return; }    // only IPv4 packets have a tunnel address as destination
 		uint32_t dst_net; memcpy(&dst_net, &p[20], 4);
 		if (ntohl(dst_net) != w->clients[0].tun_ip_h) return;    // only the watched client's downstream
 		int n = peek_nusers();
